@@ -12,6 +12,8 @@ pub struct Session {
     ctx: TransactionContext,
     logger: TransactionLogger,
     task_runner: SharedTaskRunner,
+    /// Set once the transaction has been committed or rolled back.
+    finished: bool,
 }
 
 impl Session {
@@ -24,17 +26,26 @@ impl Session {
             ctx,
             logger,
             task_runner,
+            finished: false,
         }
     }
 
     pub fn commit_transaction(&mut self) -> QueryRunnerResult<()> {
+        if self.finished {
+            return Ok(());
+        }
         self.logger.log_commit()?;
         self.ctx.commit_transaction()?;
         self.logger.log_end()?;
+        self.finished = true;
         Ok(())
     }
 
     pub fn abort_transaction(&mut self) -> QueryRunnerResult<()> {
+        if self.finished {
+            return Ok(());
+        }
+        self.finished = true;
         self.logger.log_abort()?;
         self.ctx.abort_transaction()?;
         self.logger.log_end()?;
